@@ -351,6 +351,10 @@ def rng_oracle(case, trace):
     for t, r in trace:
         if t == "RNG":
             ev += r.split()
+        if t == "RNGCAL" and "differs" in r:
+            # the harness re-draws every segment's bound sequence with the plainest program (one row `(random(b))` per
+            # bound, same seed): the run's draws must be that one stream, whatever the program looks like
+            yield "the run's draws are not the single stream of the run's generator for this seed and bound sequence: %s" % r.strip()
     first = []      # (bound, draw) pairs since the start of the run
     cur = None
     seg = first
@@ -1640,11 +1644,11 @@ def replay_cases(seed, tier):
     sigs = [{"name": "A", "typ": "I", "bits": 64, "default": "0"}, {"name": "Q", "typ": "O", "bits": 8, "default": "-"}]
     for i in range(n):
         nseg = rng.randrange(2, 5)
-        bounds = [rng.choice([2, 3, 10, 100, 2 ** 31, 2 ** 62]) for _ in range(rng.randrange(1, 5))]
+        bounds = [rng.choice([2, 3, 100, 1000003, 2 ** 31, 2 ** 40, 2 ** 62, 2 ** 63 - 1]) for _ in range(rng.randrange(1, 5))]
         use_decl = rng.random() < 0.4
         lines = ["A Q V" if use_decl else "A Q"]
         if use_decl:
-            lines.append("declare V = Q + random(%d);" % rng.choice([3, 10, 100]))
+            lines.append("declare V = Q + random(%d);" % rng.choice([3, 100, 1000003, 2 ** 40, 2 ** 62]))
         for sgm in range(nseg):
             for b in bounds:
                 x = rng.random()
